@@ -2319,8 +2319,12 @@ def skel_users_Builder : List String := [
   "v4 *workers.PoolManager,",
   "v5 options.RunOptions,",
   ") {",
-  "v6 := NewWorker(v5.Concurrency)",
-  "v6(v2, v3, v4, v5)",
+  "v6 := v4.NewContinuousPool(v5.Concurrency)",
+  "v6.Start(v2)",
+  "select {",
+  "case <-v2.Done():",
+  "case <-v4.WaitForCompletion():",
+  "}",
   "}",
   "return &api.Trigger{",
   "Trigger: v1,",
@@ -2564,7 +2568,9 @@ def skel_pool_Start : List String := [
   "go v0.run(v5, &v2)",
   "}",
   "v2.Wait()",
+  "v0.manager.runningWorkers.Add(1)",
   "go func() {",
+  "defer v0.manager.runningWorkers.Done()",
   "<-v3.Done()",
   "v0.stop()",
   "}()",
